@@ -65,6 +65,7 @@ public:
     bool bound() const { return context.get() != nullptr; }
     Tape::Handle tapeOf() { auto c = ctx(); return c ? c->tape : ev.getDeck()->tape; }
     void note(const char* kind) {
+        if (quiet) return;
         Log::get().ev(inst, "wev " + std::to_string(inst) + " " + kind + " " + ctxName(context.get()));
     }
     Eigen::Vector3f pt(size_t i) const { return points.col(i).matrix(); }
@@ -112,12 +113,26 @@ public:
 
     void evalDerivs(Eigen::Block<Eigen::Array<float, 3, Eigen::Dynamic>, 3, 1, true> out, size_t index = 0) override {
         note("deriv");
+        if (inheritDerivs()) {
+            // an oracle that supplies no gradient code of its own: the stock OracleStorage implementation
+            // (slot 0 borrowed for an evalFeatures call, then restored)
+            const bool q = quiet; quiet = true;
+            OracleStorage<>::evalDerivs(out, index);
+            quiet = q;
+            return;
+        }
         Eigen::Vector4f d = ev.deriv(pt(index), *tapeOf());
         out = d.head<3>().array();
     }
 
     void evalDerivArray(Eigen::Block<Eigen::Array<float, 3, LIBFIVE_EVAL_ARRAY_SIZE>, 3, Eigen::Dynamic, true> out) override {
         note("derivs");
+        if (inheritDerivs()) {
+            const bool q = quiet; quiet = true;
+            Oracle::evalDerivArray(out);     // the default: evalDerivs per slot
+            quiet = q;
+            return;
+        }
         const size_t count = out.cols();
         for (size_t i = 0; i < count; ++i) ev.set(pt(i), i);
         auto ds = ev.derivs(count, *tapeOf());
@@ -130,8 +145,12 @@ public:
         out = ev.features_(pt(0), tapeOf());
     }
 
+    /*  per case: gradients through the inherited OracleStorage::evalDerivs / Oracle::evalDerivArray  */
+    static bool& inheritDerivs() { static bool b = false; return b; }
+
     Evaluator ev;
     int inst = -1;
+    bool quiet = false;
 };
 
 class WrapOracleClause : public OracleClause {
